@@ -71,8 +71,8 @@ class PolygonPixelRegion(PixelRegion):
 
     def __init__(self, vertices, meta=None, visual=None, origin=None):
         self._vertices = vertices
-        self.meta = meta or RegionMeta()
-        self.visual = visual or RegionVisual()
+        self.meta = RegionMeta() if meta is None else meta
+        self.visual = RegionVisual() if visual is None else visual
         if origin is None:
             origin = PixCoord(0, 0)
         self.origin = origin
@@ -377,8 +377,8 @@ class PolygonSkyRegion(SkyRegion):
 
     def __init__(self, vertices, meta=None, visual=None):
         self.vertices = vertices
-        self.meta = meta or RegionMeta()
-        self.visual = visual or RegionVisual()
+        self.meta = RegionMeta() if meta is None else meta
+        self.visual = RegionVisual() if visual is None else visual
 
     def to_pixel(self, wcs):
         x, y = wcs.world_to_pixel(self.vertices)
